@@ -201,7 +201,11 @@ def unit_tree(args):
                 if w is None:
                     res["errors"].append("solver unknown for a %s witness" % prop)
                     return
-                res[prop].append({"what": msg, "chars": w, "opts": o, "name": args["name"]})
+                oo = dict(o)
+                if m.notes.get("detached"):
+                    oo.pop("script_detach", None)
+                    oo["detach_plan"] = [list(x) for x in m.notes["detached"]]
+                res[prop].append({"what": msg, "chars": w, "opts": oo, "name": args["name"]})
             if outcome != "ok":
                 if "TreeSink contract" in outcome:
                     report("C05", outcome[7:])
@@ -237,6 +241,10 @@ def native_doc(exe, chars, opts):
                   "ctxscripting %d" % (1 if opts.get("ctx_scripting", True) else 0)]
         for k, v in opts.get("context_attrs", ()):
             lines.append("cattr %s %s" % (k.encode().hex(), v.encode().hex()))
+        if opts.get("form"):
+            lines.append("form 1")
+    for (pk, ei) in (opts.get("detach_plan") or []):
+        lines.append("detach %d %d" % (pk, ei))
     pos = 0
     for n in (opts.get("chunks") or [len(doc)]):
         lines.append("hchunk " + doc[pos:pos + n].encode("utf-8").hex())
